@@ -337,6 +337,16 @@ def m_is_x_and(ctx, args, callee):
     return BoolVal(k == 'is_none_or')
 
 
+@model(r'^<(&?)(f64|f32) as PartialOrd>::partial_cmp$')
+def m_float_partial_cmp(ctx, args, callee):
+    """None when either side is NaN, otherwise the order of the two numbers"""
+    a = ctx.deref(args[0]); b = ctx.deref(args[1])
+    if ctx.decide(Or(z3.fpIsNaN(a), z3.fpIsNaN(b))):
+        return none()
+    d = simplify(If(z3.fpLT(a, b), BitVecVal(-1, 64), If(z3.fpEQ(a, b), BitVecVal(0, 64), BitVecVal(1, 64))))
+    return some(EnumV(d, {}, 'Ordering'))
+
+
 @model(r'^<T as (Ord|PartialOrd)>::(cmp|partial_cmp)$', 'generic_T_cmp')
 def m_generic_t_cmp(ctx, args, callee):
     """a generic T: Ord inside a crate function, resolved by the run-time value (the searcher instantiates T = String)"""
